@@ -188,6 +188,23 @@ CHECKS = {
              "observed on the explored inputs only; the float64 -> int16 store of a NaN is outside the model (after the fix commits no "
              "finite input produces one). Axioms: real-number axioms of the standard library.",
         technique="Coq proof (monotone composition, rounding and saturation lemmas, case analysis of the early returns) + clause checks on the implementation + bit-exact correspondence"),
+    "C14": dict(
+        cat="proof",
+        text="Translator-tied: tools/vcgen.py reads the current source of the 35 kernels (Python ast), executes it symbolically over array "
+             "shapes and integer scalars and emits one lemma over Z per subscript - contract, loop ranges and path guards imply "
+             "-len <= index < len (Python / numba index semantics) - plus mask-length, callee-contract, promised-return-shape and "
+             "completely-written obligations; ~570 sites, ~230 distinct lemmas, re-generated and re-proved (lia) on every run for all array "
+             "lengths. Cursor variables advanced under data-dependent conditions (tinterpolate, mk_sens_slope) and scatter through boolean "
+             "masks (mean_grp, gammastd_grp) are hand-proved about checked models of the loops (Props/C14.v) and tied by the AST hash of "
+             "the function. Every kernel is also compiled with NUMBA_BOUNDSCHECK=1 and run on boundary-sized and random in-contract inputs "
+             "(IndexError = out-of-bounds), gufunc outputs pre-filled with two poison patterns, array-returning functions re-run from source "
+             "with poisoned np.empty (unwritten cells).",
+        ref="7 (C14)",
+        note="Trusted: Coq kernel; vcgen.py and its CONTRACTS table (documented preconditions = hypotheses of the lemmas); numba's bounds "
+             "check. A negative index that wraps is in bounds by Python's rules and is not reported. Shape mismatches of whole-array "
+             "expressions raise in numba and are not obligations. The legacy module ops/whit.py (imported by nothing) is not analysed. "
+             "No axioms (all lemmas closed under the global context).",
+        technique="Coq proof of verification conditions generated from the source by a translator (lia) + hand-proved cursor invariants + bounds-checked runs"),
     "C06": dict(
         cat="proof",
         text="Theorems (Props/C06.v, reals): from the variational characterisation of C01 (not from the elimination order) the Whittaker "
